@@ -1,4 +1,4 @@
-REPO_FIX_COMMITS = ['2d7a94d', '41c6b34', '15c99e7', '0752c0c', '7f84765', 'af57352', 'e33a24d', '5bdc6b3', '08843a4', '3e03bb0', 'd823a64', '3ba8645', '9eda77c', 'f97803c', '7e803d3', '0853a40', '76123e6']
+REPO_FIX_COMMITS = ['2d7a94d', '41c6b34', '15c99e7', '0752c0c', '7f84765', 'af57352', 'e33a24d', '5bdc6b3', '08843a4', '3e03bb0', 'd823a64', '3ba8645', '9eda77c', 'f97803c', '7e803d3', '0853a40', '76123e6', '212f09f']
 NOT_APPLICABLE = {}
 CHECKS = {
  'C18': dict(
@@ -139,4 +139,12 @@ CHECKS = {
        'Chebyshev surfaces carry the weakened relation of C07-chebyshev-normal; iterative surfaces compared at their '
        'absolute intersection tolerance.',
   design='3/C07'),
+ 'C06': dict(
+  technique='Hypothesis-generated parameters of six closed-form stigmatic configurations; oracle = the analytically known '
+            'image point, equal optical path, zero wavefront error and unit Strehl',
+  level='For each generated configuration (up to 95% of its geometric aperture limit, f/0.6 included) every pupil ray '
+        'must pass through the closed-form image point, all optical paths must be equal, Wavefront must report zero and '
+        'FFTPSF a Strehl ratio of one; the per-surface law checker of C02 runs on the same traces. Counter-example search.',
+  note='Virtual-image families use back-projected rays and skip the wavefront/PSF clauses; tolerances 1e-9 L, 1e-6 waves.',
+  design='3/C06'),
 }
